@@ -106,10 +106,10 @@ def create_signal(db, signal):  # type: (canmatrix.CanMatrix, canmatrix.Signal) 
     if signal.type_label:
         output += signal.type_label + " "
     else:
-        if signal.is_signed:
-            output += "signed "
-        elif signal.is_float:
+        if signal.is_float:
             output += "float "
+        elif signal.is_signed:
+            output += "signed "
         else:
             output += "unsigned "
 
